@@ -53,6 +53,8 @@ FAULTS = {
     'position_relative_constant': ['K2 = %offset(START)', 'K2 = %hi(%offset(START))', 'K2 = %lo(%offset(K1))', 'K2 = %lo(%offset(sp))',
                                    'K2 = %hi(%lo(%offset(K1)))', 'K2 = %lo(%offset(8))'],
     'twin_text': ['beqz x8, START'],
+    # a faulty item written behind a label on the same line (whether or not the tree knows that spelling, the line is at fault and is the one to name)
+    'labelled_item': ['LX1: addi x1, x1, 5000', 'LX2: add x1, x1, foo', 'LX3: j nolabel', 'LX4: dw NOCONST', 'LX5: lw x1, 4096(x2)', 'LX6:  li x5, 1 +', 'LX7: K9 = 1.5'],
     # text after `string` / `error` with a backslash sequence that is no escape: if such a line is refused, then properly
     'malformed_text': ['string \\N{é}', 'error \\N{é} \\N{x \\t y}', 'string \\N{}', "K2 = '\\x41'#'A'"],
     'unreadable_include': ['include latin1.asm'],
